@@ -429,7 +429,8 @@ def run(ctx):
     check_chain(ctx, facts)
     check_batch(ctx, facts)
     check_recovery_verifies(ctx, facts)
-    from .c06 import check_scan_stride, check_scan, check_entry_scan_bound
+    from .c06 import check_scan_stride, check_scan, check_entry_scan_bound, check_read_side_ignores_limit
+    check_read_side_ignores_limit(ctx, facts, rid="C07.4")
     check_scan_stride(ctx, facts, rid="C07.4")
     check_scan(ctx, facts, rid="C07.4")
     check_entry_scan_bound(ctx, facts, rid="C07.4")
